@@ -70,7 +70,7 @@ Qed.
 (** momentum: p_inc d_inc = p' d' + p_e d_e, with p' = sqrt(T'(T' + 2M)), T' = E - T_e *)
 Theorem ioni_momentum_conserved (e_inc m_inc t_e m_e : R) dir s r s' sec :
   0 < m_inc -> 0 < m_e -> 0 < e_inc -> 0 < t_e < tmax_R m_inc e_inc m_e -> t_e < e_inc ->
-  unitv dir ->
+  unitv dir -> rot_branch_ok dir ->
   ioni_final e_inc dir (sqrt (e_inc * e_inc + 2 * m_inc * e_inc)) m_inc t_e m_e s = Some (r, s') ->
   i_secs r = [sec] ->
   let p_inc := sqrt (e_inc * e_inc + 2 * m_inc * e_inc) in
@@ -80,7 +80,7 @@ Theorem ioni_momentum_conserved (e_inc m_inc t_e m_e : R) dir s r s' sec :
   vy dir * p_inc = vy (i_dir r) * p_out + vy (s_dir sec) * p_e /\
   vz dir * p_inc = vz (i_dir r) * p_out + vz (s_dir sec) * p_e.
 Proof.
-  intros HM Hm HE [Ht0 Ht] HtE Hd E Hsec.
+  intros HM Hm HE [Ht0 Ht] HtE Hd Hb E Hsec.
   apply ioni_final_inv in E as (sdir & Ed & Hr). subst r. cbn [i_secs] in Hsec. inversion Hsec; subst sec.
   cbn [i_energy i_dir s_energy s_dir]. cbv zeta.
   set (pinc := sqrt (e_inc * e_inc + 2 * m_inc * e_inc)) in *.
@@ -88,7 +88,7 @@ Proof.
   assert (Hct : 0 < ioni_costheta e_inc pinc m_inc t_e m_e <= 1)
     by (apply ioni_costheta_range; try assumption; lra).
   assert (Hcos : -1 <= ioni_costheta e_inc pinc m_inc t_e m_e <= 1) by lra.
-  destruct (exiting_direction_spec _ _ _ _ _ Ed Hcos Hd) as (u & _ & Hsd & Hpol).
+  destruct (exiting_direction_spec _ _ _ _ _ Ed Hcos Hd) as (u & _ & Hsd & Hpol). specialize (Hpol Hb).
   assert (Hpi2 : 0 < e_inc * e_inc + 2 * m_inc * e_inc) by nra.
   assert (Hpe2 : 0 < t_e * (t_e + 2 * m_e)) by nra.
   assert (Hpinc : 0 < pinc) by (apply sqrt_lt_R0; exact Hpi2).
